@@ -413,7 +413,7 @@ bool vfps::ProgramOptions::parse(int ac, char** av)
                 }
                 notify(_vm);
             }
-        } else if (!_vm["config"].defaulted()) {
+        } else if (_vm.count("config")) {
             std::cout << "Config file \"" << _configfile
                       << "\" does not exist."<< std::endl;
             return false;
